@@ -1,6 +1,8 @@
 (* Model/Eval.v — boreal/src/evaluator/{mod,variable,read_integer}.rs, arm by arm.
    `Evaluator::evaluate_expr` over the compiled `Expression` enum (everything except module
-   values other than bounded identifiers, `entrypoint` and floats; `matches` is the unary operator
+   values other than bounded identifiers and `entrypoint`; floats are IEEE-754 binary64 values computed
+   with the standard library's executable specification Floats.SpecFloat (prec 53, emax 1024: the
+   operations the hardware `f64` of the code implements, round-to-nearest-even); `matches` is the unary operator
    `UMatches`: the regex, lowered as in Model/Hir.v, has a match somewhere in the bytes — what
    `Regex::is_match` is specified to answer, Spec/Regex.v `is_match`),
    `ForSelectionEvaluator`, `VarMatches::{find, find_at, find_in, count_matches, count_matches_in,
@@ -8,9 +10,32 @@
    Definitions only. *)
 From Boreal Require Import Base.Prelude Base.Res.
 From Boreal Require Spec.Regex Model.Hir.
+From Coq Require Floats.SpecFloat.
 
 (* ------------------------------------------------------------------ values *)
-Inductive value := VInt (z : Z) | VBytes (b : list N) | VBool (b : bool).
+Inductive value := VInt (z : Z) | VBytes (b : list N) | VBool (b : bool)
+| VFloat (f : SpecFloat.spec_float).   (* Value::Float(f64) *)
+
+(* ------------------------------------------------------------------ binary64 *)
+Definition f64 := SpecFloat.spec_float.
+Definition f64_zero : f64 := SpecFloat.S754_zero false.
+(* `n as f64`: the nearest binary64, ties to even *)
+Definition f64_of_Z (n : Z) : f64 := SpecFloat.binary_normalize 53 1024 n 0 false.
+Definition f64_add : f64 -> f64 -> f64 := SpecFloat.SFadd 53 1024.
+Definition f64_sub : f64 -> f64 -> f64 := SpecFloat.SFsub 53 1024.
+Definition f64_mul : f64 -> f64 -> f64 := SpecFloat.SFmul 53 1024.
+Definition f64_div : f64 -> f64 -> f64 := SpecFloat.SFdiv 53 1024.
+Definition f64_neg : f64 -> f64 := SpecFloat.SFopp.
+Definition f64_abs : f64 -> f64 := SpecFloat.SFabs.
+Definition f64_compare : f64 -> f64 -> option comparison := SpecFloat.SFcompare.
+(* f64::EPSILON = 2^-52 *)
+Definition f64_epsilon : f64 := SpecFloat.S754_finite false 4503599627370496 (-104).
+(* `a != 0.0`: true for NaN *)
+Definition f64_nonzero (a : f64) : bool :=
+  match f64_compare a f64_zero with Some Eq => false | _ => true end.
+(* `(a - b).abs() < f64::EPSILON`: false when the difference is NaN (inf - inf) *)
+Definition f64_close (a b : f64) : bool :=
+  match f64_compare (f64_abs (f64_sub a b)) f64_epsilon with Some Lt => true | _ => false end.
 
 Definition is_nil {A} (l : list A) : bool := match l with [] => true | _ => false end.
 
@@ -20,6 +45,7 @@ Definition truthy (v : value) : bool :=
   | VBool b => b
   | VBytes s => negb (is_nil s)
   | VInt n => negb (n =? 0)%Z
+  | VFloat a => f64_nonzero a
   end.
 
 Definition i64_min : Z := (-9223372036854775808)%Z.
@@ -41,6 +67,7 @@ Inductive ritype := I8 | U8 | I16 | U16 | I32 | U32 | I16BE | U16BE | I32BE | U3
 
 Inductive expr :=
 | EInt (z : Z) | EBytes (b : list N) | EBool (b : bool)
+| EDouble (f : SpecFloat.spec_float)     (* Expression::Double *)
 | EFilesize
 | EReadInt (ty : ritype) (addr : expr)
 | ECount (v : option nat)
@@ -114,12 +141,35 @@ Definition cmp_holds (o : binop) (c : comparison) : bool :=
   | _, _ => false
   end.
 
+Arguments f64_of_Z : simpl never.
+Arguments f64_add : simpl never.
+Arguments f64_sub : simpl never.
+Arguments f64_mul : simpl never.
+Arguments f64_div : simpl never.
+Arguments f64_neg : simpl never.
+Arguments f64_abs : simpl never.
+Arguments f64_compare : simpl never.
+Arguments f64_nonzero : simpl never.
+Arguments f64_close : simpl never.
+
+(* the mixed integer / float arms of arith_op_num_and_float!, apply_cmp_op!, Div and eval_eq_values:
+   at least one operand is a float, the other one a float or an integer converted with `as f64` *)
+Definition is_float (v : value) : bool := match v with VFloat _ => true | _ => false end.
+Definition to_f64 (v : value) : option f64 :=
+  match v with VInt n => Some (f64_of_Z n) | VFloat a => Some a | _ => None end.
+Definition float_pair (a b : value) : option (f64 * f64) :=
+  if is_float a || is_float b then
+    match to_f64 a, to_f64 b with Some x, Some y => Some (x, y) | _, _ => None end
+  else None.
+Definition float_arith (f : f64 -> f64 -> f64) (a b : value) : res value :=
+  match float_pair a b with Some (x, y) => Ok (VFloat (f x y)) | None => Undef end.
+
 Definition eq_values (a b : value) : res bool :=
   match a, b with
   | VInt n, VInt m => Ok (n =? m)%Z
   | VBytes x, VBytes y => Ok (bytes_eqb x y)
   | VBool x, VBool y => Ok (Bool.eqb x y)
-  | _, _ => Undef
+  | _, _ => match float_pair a b with Some (x, y) => Ok (f64_close x y) | None => Undef end
   end.
 
 Definition str_op (ci : bool) (f : list N -> list N -> bool) (a b : value) : res value :=
@@ -134,15 +184,15 @@ Definition num_op (f : Z -> Z -> res value) (a b : value) : res value :=
 
 Definition eval_bin (o : binop) (a b : value) : res value :=
   match o with
-  | OAdd => match a, b with VInt n, VInt m => Ok (VInt (wrap64 (n + m))) | _, _ => Undef end
-  | OSub => match a, b with VInt n, VInt m => Ok (VInt (wrap64 (n - m))) | _, _ => Undef end
-  | OMul => match a, b with VInt n, VInt m => Ok (VInt (wrap64 (n * m))) | _, _ => Undef end
+  | OAdd => match a, b with VInt n, VInt m => Ok (VInt (wrap64 (n + m))) | _, _ => float_arith f64_add a b end
+  | OSub => match a, b with VInt n, VInt m => Ok (VInt (wrap64 (n - m))) | _, _ => float_arith f64_sub a b end
+  | OMul => match a, b with VInt n, VInt m => Ok (VInt (wrap64 (n * m))) | _, _ => float_arith f64_mul a b end
   | ODiv => match a, b with
             | VInt n, VInt m =>
                 if (m =? 0)%Z then Undef
                 else if (n =? i64_min)%Z && (m =? -1)%Z then Undef   (* checked_div *)
                 else Ok (VInt (Z.quot n m))
-            | _, _ => Undef end
+            | _, _ => float_arith f64_div a b end
   | OMod => num_op (fun n m =>
                 if (m =? 0)%Z then Undef
                 else if (n =? i64_min)%Z && (m =? -1)%Z then Undef   (* checked_rem *)
@@ -160,7 +210,12 @@ Definition eval_bin (o : binop) (a b : value) : res value :=
       match a, b with
       | VInt n, VInt m => Ok (VBool (cmp_holds o (Z.compare n m)))
       | VBytes x, VBytes y => Ok (VBool (cmp_holds o (bytes_cmp x y)))
-      | _, _ => Undef
+      | _, _ =>
+          (* a comparison with NaN is false *)
+          match float_pair a b with
+          | Some (x, y) => Ok (VBool (match f64_compare x y with Some c => cmp_holds o c | None => false end))
+          | None => Undef
+          end
       end
   | OEq => let* r := eq_values a b in Ok (VBool r)
   | ONeq => let* r := eq_values a b in Ok (VBool (negb r))
@@ -172,7 +227,7 @@ Definition eval_bin (o : binop) (a b : value) : res value :=
 
 Definition eval_un (o : unop) (a : value) : res value :=
   match o with
-  | UNeg => match a with VInt n => Ok (VInt (wrap64 (- n))) | _ => Undef end
+  | UNeg => match a with VInt n => Ok (VInt (wrap64 (- n))) | VFloat x => Ok (VFloat (f64_neg x)) | _ => Undef end
   | UBnot => let* n := unwrap_number a in Ok (VInt (Z.lnot n))
   | UNot => Ok (VBool (negb (truthy a)))
   | UMatches nc da re =>
@@ -296,7 +351,9 @@ Fixpoint for_loop (s : fsel) (needed : N) (rs : list (res value)) : res value :=
       end
   end.
 
-(* ForIterator::List: element evaluation is interleaved with the body *)
+(* ForIterator::List: element evaluation is interleaved with the body.  The compiler only accepts
+   integer or bytes elements (compile_for_iterator): a boolean element is the `_ => Undefined` arm; a
+   float element, which the arm would treat alike, cannot be written and is not distinguished here. *)
 Fixpoint list_loop (s : fsel) (needed : N) (items : list (res value * res value)) : res value :=
   match items with
   | [] => sel_end s needed
@@ -355,6 +412,7 @@ Fixpoint eval (en : env) (sel : option nat) (stack : list value) (e : expr) {str
   | EInt z => Ok (VInt z)
   | EBytes b => Ok (VBytes b)
   | EBool b => Ok (VBool b)
+  | EDouble f => Ok (VFloat f)
   | EFilesize =>
       match e_filesize en with
       | Some n => Ok (VInt (Z.min (Z.of_N n) i64_max))
